@@ -10,4 +10,7 @@ sys.path.insert(0, ".")
 from engine import facts
 F = facts.load()
 print("facts ready:", F.info, "bodies:", F.body_count())
+# the dependency facts of the C16 thorough tier (nmt-rs, leopard-codec as pinned by /repo/Cargo.lock)
+F.load_deps()
+print("dependency facts ready:", F.info.get("dep_facts"))
 PY
